@@ -6,12 +6,12 @@ import vlib, seqengine
 from vlib import Failure
 
 WORKLOADS = {
-    'C02': dict(quick=[('generic', 14, 60, 4000), ('names', 10, 60, 4000), ('bigfile', 8, 40, 6000)],
-                thorough=[('generic', 300, 300, 4000), ('names', 200, 300, 4000), ('bigfile', 100, 150, 12000), ('generic', 100, 200, 40000)]),
+    'C02': dict(quick=[('generic', 14, 60, 4000), ('names', 10, 60, 4000), ('bigfile', 8, 40, 6000), ('fail', 6, 70, 1600)],
+                thorough=[('generic', 300, 300, 4000), ('names', 200, 300, 4000), ('bigfile', 100, 150, 12000), ('generic', 100, 200, 40000), ('fail', 100, 200, 1600)]),
     'C04': dict(quick=[('names', 8, 60, 4000), ('recycle', 6, 50, 4000), ('generic', 6, 50, 2200), ('fail', 8, 70, 1600)],
                 thorough=[('names', 200, 300, 4000), ('recycle', 150, 200, 4000), ('generic', 150, 300, 2200), ('bigfile', 60, 150, 12000)]),
-    'C05': dict(quick=[('reclaim', 12, 60, 4000), ('reclaim', 6, 40, 9000)],
-                thorough=[('reclaim', 250, 200, 4000), ('reclaim', 60, 120, 9000), ('names', 100, 200, 2200)]),
+    'C05': dict(quick=[('reclaim', 12, 60, 4000), ('reclaim', 6, 40, 9000), ('fail', 6, 70, 1600)],
+                thorough=[('reclaim', 250, 200, 4000), ('reclaim', 60, 120, 9000), ('names', 100, 200, 2200), ('fail', 100, 200, 1600)]),
     'C06': dict(quick=[('lockorder', 16, 80, 4000), ('names', 6, 60, 4000)], thorough=[('lockorder', 400, 300, 4000), ('names', 100, 300, 4000), ('stale', 100, 300, 4000)]),
     'C13': dict(quick=[('paging', 3, 1, 4000)], thorough=[('paging', 24, 1, 4000)]),
     'C19': dict(quick=[('limits', 1, 1, 30000), ('limits', 1, 1, 70000)], thorough=[('limits', 3, 1, 30000), ('limits', 2, 1, 70000), ('limits', 1, 1, 140000)]),
@@ -41,7 +41,10 @@ def run(ctx, prop, ps, gen_bad):
                 fails.append(Failure(prop, own[0][0], st_['proc'], own[0][1], replay=dict(header=hdr, ops=ops, corpus=name)))
                 break
     for k, (profile, nseq, nops, size) in enumerate(WORKLOADS[prop]['quick' if ctx.quick else 'thorough']):
-        fs, st = seqengine.run_profile(ctx, prop, profile, nseq, nops, size, seed_off=k * 7919, survive_only=(prop == 'C11'))
+        fs, st = seqengine.run_profile(ctx, prop, profile, nseq, nops, size, seed_off=k * 7919, survive_only=(prop == 'C11'),
+                                      # C06 judges each call's own lock events and whether it returns: a disagreement with the
+                                      # reference (owned by other properties) does not end the sequence
+                                      ignore_foreign=(prop == 'C06'))
         tot['sequences'] += st['sequences']
         tot['steps'] += st['steps']
         tot['cut'] += st['cut_short']
